@@ -216,7 +216,12 @@ def scenario(res, flavour, ext, tmp, fault, case):
             if not schedule_alive(pg):
                 res.violation(f"schedule-stopped:{flavour}", f"after a failed save ({case['desc']}) no further save attempt is armed ({flavour})", case)
         quiet = case.get("quiet", False)     # quiet: no further message arrives after the failed save
-        if not quiet:
+        if case.get("shrink"):
+            # the network's serialisation gets SHORTER before the next tick (shorter names and values): a leftover of the
+            # failed save must not shine through
+            for l in ("1;255;3;0;11;x", "1;255;3;0;12;1", "1;255;3;0;0;1", "1;0;1;0;0;9", "2;255;3;0;11;y", "2;0;1;0;0;8", "60;255;3;0;11;z"):
+                pg.eng.feed(l)
+        elif not quiet:
             pg.eng.feed("61;255;0;0;17;2.2")
         if not (quiet and case.get("stop_directly")):
             pg.tick()
@@ -256,17 +261,20 @@ def run_oserror(job, res):
     flavour, ext = job["flavour"], job["ext"]
     tmp = tempfile.mkdtemp(prefix="vf-c15-")
     try:
-        # dry run to learn the op sequence of a scheduled save
-        path = os.path.join(tmp, f"net.{ext}")
-        pg = PGateway(flavour, VERSION, path)
-        pg.start()
-        for l in base_lines(3):
-            pg.eng.feed(l)
-        with Shim("count") as sh:
-            pg.tick()
-        ops = list(sh.ops)
-        pg.stop()
-        pg.close()
+        # dry run of the very scenario to learn the op sequence of the save that will be disturbed (it replaces an existing
+        # file, so it has the two renames and the removal of the backup; its length depends on the state at that point)
+        ops = []
+
+        def dry(pg):
+            with Shim("count") as sh0:
+                pg.tick()
+            ops.extend(sh0.ops)
+            return {"fired": lambda: False, "failed": False}
+
+        scenario(Result(), flavour, ext, tmp, dry, {"what": "dry", "desc": "dry run"})
+        if not ops:
+            res.notes.append("dry run recorded no file operations")
+            return
         res.add_set("ops", (flavour, ext, len(ops)))
         pts = [i for i, o in enumerate(ops) if o[0] != "write"] + [i for i, o in enumerate(ops) if o[0] == "write"][::7]
         for k in sorted(set(pts)):
@@ -283,14 +291,16 @@ def run_oserror(job, res):
                     finally:
                         sh.uninstall()
                     return {"fired": lambda: sh.fired, "failed": len(SAVE_EXC) > n0}
-                for variant in ({}, {"quiet": True}, {"quiet": True, "stop_directly": True}):
+                for variant in ({}, {"quiet": True}, {"quiet": True, "stop_directly": True}, {"shrink": True}):
                     if variant and err != errno.EIO:
                         continue
                     res.evals += 1
                     scenario(res, flavour, ext, tmp, fault, dict(case, **variant))
                     res.nontrivial((flavour, ext, "oserror", k, err, tuple(variant)))
-                    if variant:
+                    if variant.get("quiet"):
                         res.count("quiet_variants")
+                    if variant.get("shrink"):
+                        res.count("shrinking_variants")
         res.sample({"kind": "oserror", "flavour": flavour, "ext": ext, "ops": [o[0] for o in ops if o[0] != "write"], "points": len(set(pts))})
     finally:
         shutil.rmtree(tmp, ignore_errors=True)
